@@ -450,7 +450,7 @@ func bigBatch(pf *Profile, r *simrt.Rand, tier string) bool {
 	pf.QKinds = memKinds
 	pf.Conc = []int{2, 4}
 	pf.Producers, pf.Adds = [2]int{1, 1}, [2]int{1, 1}
-	pf.BatchPct, pf.BatchMin, pf.BatchMax = 100, 1025, 1300
+	pf.BatchPct, pf.BatchMin, pf.BatchMax = 100, 1025, 1026 // (just over 1024: every item can still finish its function with concurrency >= 2)
 	pf.ErrPct, pf.PanicPct = 100, 0
 	pf.DelayPct, pf.GatedPct, pf.CloseInFnPct = 0, 0, 0
 	pf.ReaderPct, pf.BatchWaitPct = 0, 100
